@@ -1,6 +1,6 @@
 (* SriP.v — facts about integrity values computed by the library itself. *)
 From CC Require Import Bytes Codec Sri BytesP CodecP.
-From Coq Require Import Lia.
+From Coq Require Import Lia ZifyN ZifyBool.
 
 Section S.
 Variable hash : algo -> bytes -> bytes.
@@ -36,5 +36,73 @@ Proof.
   cbn [andb]. assert (hashv_eqb (mkHash a (b64_encode (hash a d))) (mkHash a (b64_encode (hash a d))) = true) as ->
     by (apply hashv_eqb_eq; reflexivity). reflexivity.
 Qed.
+
+
+(* ---------- the text of a computed address parses back to it ---------- *)
+Section Text.
+Local Open Scope N_scope.
+
+Definition clean_b64 (x : byte) : bool := negb (is_space x) && negb (Byte.eqb x x2d).
+
+Lemma enc6_clean_all : forallb (fun n => clean_b64 (enc6 n)) (map N.of_nat (seq 0 64)) = true.
+Proof. vm_compute. reflexivity. Qed.
+
+Lemma enc6_clean n : n < 64 -> clean_b64 (enc6 n) = true.
+Proof.
+  intros H. pose proof enc6_clean_all as A. rewrite forallb_forall in A. apply A.
+  apply in_map_iff. exists (N.to_nat n). split; [apply N2Nat.id|]. apply in_seq. lia.
+Qed.
+
+Ltac Zify.zify_post_hook ::= Z.div_mod_to_equations.
+
+Lemma b64_encode_clean l : forallb clean_b64 (b64_encode l) = true.
+Proof.
+  induction l as [|a|a b|a b c t IH] using bytes_ind3; cbn [b64_encode forallb].
+  - reflexivity.
+  - pose proof (b2n_bounded a). rewrite !enc6_clean by lia. reflexivity.
+  - pose proof (b2n_bounded a). pose proof (b2n_bounded b). rewrite !enc6_clean by lia. reflexivity.
+  - pose proof (b2n_bounded a). pose proof (b2n_bounded b). pose proof (b2n_bounded c).
+    rewrite !enc6_clean by lia. exact IH.
+Qed.
+
+Lemma words_aux_clean l cur : forallb (fun x => negb (is_space x)) l = true ->
+  words_aux l cur = match rev cur ++ l with [] => [] | w => [w] end.
+Proof.
+  revert cur. induction l as [|x l IH]; intros cur H; cbn [words_aux].
+  - rewrite app_nil_r. destruct cur as [|c cur]; [reflexivity|]. cbn [rev]. destruct (rev cur ++ [c]) eqn:E; [|reflexivity].
+    destruct (rev cur); discriminate.
+  - cbn [forallb] in H. apply andb_true_iff in H as [H1 H2]. apply negb_true_iff in H1. rewrite H1.
+    rewrite IH by exact H2. cbn [rev]. rewrite <- app_assoc. reflexivity.
+Qed.
+
+Lemma algo_name_facts a :
+  parse_algo (algo_name a) = Some a /\ forallb (fun x => negb (is_space x) && negb (Byte.eqb x x2d)) (algo_name a) = true
+  /\ algo_name a <> [].
+Proof. destruct a; vm_compute; repeat split; discriminate. Qed.
+
+Lemma forallb_in {A} (p : A -> bool) l x : forallb p l = true -> In x l -> p x = true.
+Proof. intros H Hin. rewrite forallb_forall in H. apply H. exact Hin. Qed.
+
+Theorem parse_sri_computed a d : parse_sri (sri_text (sri_of hash a d)) = Some (sri_of hash a d).
+Proof.
+  unfold sri_of, sri_text. cbn [map intercalate]. unfold hash_text. cbn [h_algo h_digest].
+  destruct (algo_name_facts a) as [Hp [Hc Hne]]. pose proof (b64_encode_clean (hash a d)) as Hb.
+  set (dig := b64_encode (hash a d)) in *.
+  unfold parse_sri, words.
+  assert (forallb (fun x => negb (is_space x)) (algo_name a ++ x2d :: dig) = true) as Hns.
+  { rewrite forallb_app. cbn [forallb]. apply andb_true_iff. split.
+    - rewrite forallb_forall in *. intros x Hx. specialize (Hc x Hx). apply andb_true_iff in Hc. tauto.
+    - apply andb_true_iff. split; [reflexivity|]. rewrite forallb_forall in *. intros x Hx. specialize (Hb x Hx).
+      unfold clean_b64 in Hb. apply andb_true_iff in Hb. tauto. }
+  rewrite words_aux_clean by exact Hns. cbn [rev app].
+  destruct (algo_name a ++ x2d :: dig) as [|y ys] eqn:E; [destruct (algo_name a); discriminate|].
+  rewrite <- E. cbn [parse_hashes]. unfold parse_hash.
+  rewrite split_two.
+  - rewrite Hp. reflexivity.
+  - intros x Hx. pose proof (forallb_in _ _ _ Hc Hx) as H. apply andb_true_iff in H as [_ H]. apply negb_true_iff in H. exact H.
+  - intros x Hx. pose proof (forallb_in _ _ _ Hb Hx) as H. unfold clean_b64 in H. apply andb_true_iff in H as [_ H].
+    apply negb_true_iff in H. exact H.
+Qed.
+End Text.
 
 End S.
